@@ -3,6 +3,7 @@
 repository suite and all quick checks, records which checks fire, restores /repo.
 Usage: tools/mutants.py [name ...]   -> appends to /verif/seeded/own_catalogue.jsonl"""
 import subprocess, sys, json, os, re
+REPO=os.environ.get("VH_REPO_DIR","/repo"); VERIF=os.environ.get("VH_VERIF_DIR","/verif"); OUT=os.environ.get("MUTANTS_OUT","/verif/seeded/own_catalogue.jsonl")
 M = [
  # name, file, old, new, description
  ("list-endA-cursor", "v2/list.go", "pathCursor += 2", "pathCursor++", "index of hunks after appended tail elements off by one per element"),
@@ -30,11 +31,11 @@ M = [
 HELPER = "\nfunc boolToInt(b bool) int {\n\tif b {\n\t\treturn 1\n\t}\n\treturn 0\n}\n"
 def sh(cmd, **kw): return subprocess.run(cmd, shell=True, capture_output=True, text=True, **kw)
 names = sys.argv[1:]
-os.makedirs("/verif/seeded", exist_ok=True)
+os.makedirs(os.path.dirname(OUT), exist_ok=True)
 for name, f, old, new, desc in M:
     if names and name not in names: continue
-    assert sh("git -C /repo status --porcelain").stdout.strip() == "", "repo dirty"
-    p = "/repo/" + f
+    assert sh(f"git -C {REPO} status --porcelain").stdout.strip() == "", "repo dirty"
+    p = REPO + "/" + f
     s = open(p).read()
     if s.count(old) != 1:
         print(name, "PATTERN COUNT", s.count(old)); continue
@@ -42,16 +43,16 @@ for name, f, old, new, desc in M:
     if "boolToInt" in new: s2 += HELPER
     open(p, "w").write(s2)
     try:
-        suite = sh("/verif/tools/repotest.sh")
+        suite = sh(f"{VERIF}/tools/repotest.sh")
         suite_ok = suite.returncode == 0
         caught, lines = [], {}
         for i in range(1, 19):
             c = f"C{i:02d}"
-            r = sh(f"cd /verif && ./check {c} quick")
+            r = sh(f"cd {VERIF} && ./check {c} quick")
             if r.returncode == 1: caught.append(c)
             elif r.returncode != 0: lines[c] = "rc=%d %s" % (r.returncode, r.stdout.strip().splitlines()[-1][:200] if r.stdout.strip() else r.stderr[-200:])
         rec = {"name": name, "file": f, "description": desc, "suite_passes": suite_ok, "caught_by": caught, "other": lines}
         print(json.dumps(rec), flush=True)
-        open("/verif/seeded/own_catalogue.jsonl", "a").write(json.dumps(rec) + "\n")
+        open(OUT, "a").write(json.dumps(rec) + "\n")
     finally:
-        sh("git -C /repo checkout -q -- . && git -C /repo clean -fdq")
+        sh(f"git -C {REPO} checkout -q -- . && git -C {REPO} clean -fdq")
